@@ -44,6 +44,13 @@ pub fn on_state(
         let n = c10_probe(&st.model, cfg, sut, &st.bytes, viol);
         *stats.probe_evals.entry("c10_probes".into()).or_default() += n;
     }
+    if p.probes.c15_fill
+        && !st.model.unjudged_accounting
+        && (st.model.any_offline() || st.path.iter().any(|o| matches!(o, Op::Change { .. })))
+    {
+        c15_fill(&st.model, cfg, sut, &st.bytes, viol);
+        *stats.probe_evals.entry("c15_exhaustions".into()).or_default() += 1;
+    }
     // leave the subject in the state it was given
     sut.bufs.restore(&st.bytes);
 }
@@ -336,4 +343,60 @@ pub fn c10_probe(
     }
     let _ = FrameId(0);
     n
+}
+
+/// C15: drain, then allocate base frames until out of memory: exactly the free frames
+/// outside offline trees are handed out.
+pub fn c15_fill(m: &Model, cfg: &Config, sut: &Sut, bytes: &[u8], viol: &mut Vec<Violation>) {
+    sut.bufs.restore(bytes);
+    if sut.apply(&Op::Drain).is_panic() {
+        return;
+    }
+    let class = cfg.classing.natural_class(0);
+    let local = cfg.classing.slots(class).filter(|&s| s > 0).map(|_| 0);
+    let op = Op::Get {
+        order: 0,
+        class,
+        local,
+        target: None,
+    };
+    let want = m.free_online();
+    let mut got = 0usize;
+    let mut seen = vec![false; m.frames];
+    loop {
+        match sut.apply(&op) {
+            Res::Got(f, _) => {
+                if f >= m.frames || m.cells[f] != crate::model::FREE || seen[f] {
+                    viol.push(Violation::new(
+                        "C15",
+                        "exhaustion returned a frame that is not free",
+                        format!("{} -> {f}", op.short()),
+                    ));
+                    return;
+                }
+                if m.offline[f / TREE_FRAMES] {
+                    viol.push(Violation::new(
+                        "C15",
+                        "allocation from an offline tree",
+                        format!("{} -> {f} in offline tree {} during exhaustion", op.short(), f / TREE_FRAMES),
+                    ));
+                    return;
+                }
+                seen[f] = true;
+                got += 1;
+                if got > m.frames {
+                    return;
+                }
+            }
+            Res::Err(ErrKind::Memory) => break,
+            _ => return,
+        }
+    }
+    if got != want && cfg.classing.never_invalid() {
+        viol.push(Violation::new(
+            "C15",
+            "exhaustion did not hand out exactly the free frames of online trees",
+            format!("allocated {got}, online free frames {want}"),
+        ));
+    }
 }
